@@ -289,9 +289,10 @@ fn program_case(ctx: &mut Ctx, bytes: &[u8]) -> Vec<Violation> {
     cfg.p_fail = 150;
     let (prog, _) = gen_program(&bytes[1.min(bytes.len())..], cfg);
     // the reference only serves to keep memory requests out (repetition by huge counts)
+    let src = super::super::ast::render(&prog);
+    guard("programs", "src-before-reference", &src);
     let rr = super::super::progcheck::reference(&prog, 200_000);
     // (after an unspecified `int * string` the reference no longer knows the sizes involved)
-    let src = super::super::ast::render(&prog);
     if super::super::progcheck::memory_risk(&rr, &src) {
         ctx.excluded(1);
         return vec![];
